@@ -21,6 +21,13 @@ CHECKS.update({
                   'the solver decides (after normalisation modulo the asserted unit-circle relations) that the tool pose and every link pose equal the independently written product of the six '
                   'elementary transforms, origins are separated by the parameter offsets, and the matrix given to from_matrix_unchecked is a proper rotation. Angles enter only via sin/cos, so |q|>>2pi is covered.', design='6/C03'),
 })
+CHECKS.update({
+ 'C09': dict(text='All 8 trait methods of Tool, Base, Frame (+ LinearAxis/Gantry forward) executed from MIR around an ORACLE inner robot (arbitrary implementation; every call logged): the solver '
+                  'discharges the full delegation matrix (entry point X -> exactly one inner X, j6/previous unchanged, answer list unchanged) and the polynomial identities forward = base*inner*tool and '
+                  '"pose handed to the inner solver composes back to the request" for every rigid wrapper transform (Euler-parametrised, onto SE(3)). Holding for every inner robot, it composes to any nesting depth.', design='6/C09'),
+ 'C16': dict(text='All methods of Parallelogram incl. the for_each closures executed from MIR around an oracle inner robot, for (driven,coupled) index pairs (8 in quick, all 30 in thorough) and a free scaling in [-2,2]: '
+                  'one inner call of the same name, arguments unchanged except coupled -= scaling*driven, answers returned with coupled += scaling*driven, and the round trip through the forward adjustment is the identity.', design='6/C16'),
+})
 PENDING = {}
 NA = {}
 def main():
